@@ -13,7 +13,8 @@ macro_rules! impl_for_ca {
                 fn titer(&self) -> impl TIterator<Item=Option<$real>>
                 // where Option<$real>: 'a
                 {
-                    self.into_iter()
+                    // polars' iterator keeps announcing its initial length; TrustIter counts down
+                    self.into_iter().to_trust(self.len())
                 }
             }
         )*
